@@ -76,7 +76,8 @@ func after(s, mark string) string {
 	return s[i:]
 }
 
-var goroutineHdr = regexp.MustCompile(`(?m)^goroutine \d+ \[([^\]]*)\]:$`)
+// (a SIGQUIT dump names the g and the m of every goroutine: "goroutine 7 gp=0xc000188540 m=nil [chan receive]:")
+var goroutineHdr = regexp.MustCompile(`(?m)^goroutine \d+ (?:gp=\S+ m=\S+ (?:mp=\S+ )?)?\[([^\]]*)\]:$`)
 
 // isDeadlock parses a SIGQUIT goroutine dump: dead-lock iff every goroutine
 // with a frame in the target or in the harness workload is blocked on a
